@@ -273,6 +273,95 @@ def places(chk):
     chk.extra["places_runs"] = len(events)
 
 
+WALK_SEGDIR = {"plain": "p{k}", "deep": "d{k}/x/y/z", "hidden_dir": ".h{k}", "tools_typeshare": "tt{k}/tools/typeshare", "tools_other": "to{k}/tools/other",
+               "other_typeshare": "ot{k}/other/typeshare", "dotignore": "ign{k}", "gitignore": "gi{k}", "link_dir": "lnk{k}", "dir_named_rs": "dn{k}/src/inner.rs"}
+WALK_FNAME = {"plain": "f.rs", "hidden_file": ".f.rs", "upper_ext": "F.RS", "bak": "f.rs.bak", "no_ext": "f", "link_file": "f.rs"}
+
+
+def walk(chk):
+    """MC_Walk / Walk.tla: the directory walk of the real binary, every place x option pair, one tree per option pair and output mode."""
+    import re
+    from .. import cli
+    res = common.run_tlc("MC_Walk", cfg="MC_Walk", workers=2, timeout=300)
+    chk.add_tlc("MC_Walk", res)
+    if not res.replays:
+        raise ToolError("MC_Walk produced no cases")
+    # outside /verif: the scratch directory of the other checks lies in a git work tree, whose .gitignore files would count for every run
+    import tempfile
+    work = tempfile.mkdtemp(prefix="verif_c03w_")
+    common._SCRATCH.append(work)
+    segs, fnames = sorted(WALK_SEGDIR), sorted(WALK_FNAME)
+    events, meta = [], []
+    for follow in (False, True):
+        for git in (False, True):
+            cases = [c for c in res.replays if c["place"]["follow"] == follow and c["place"]["git"] == git]
+            for mode in ("single", "multi"):
+                d = os.path.join(work, f"w{int(follow)}{int(git)}{mode}")
+                markers = {}
+                for c in cases:
+                    pl = c["place"]
+                    k = fnames.index(pl["fname"])
+                    marker = f"W{pl['root']}x{segs.index(pl['seg'])}x{k}"
+                    markers[marker] = c
+                    root = os.path.join(d, f"r{pl['root']}")
+                    text = f"#[typeshare]\npub struct {marker} {{ pub w: u32 }}\n"
+                    segdir = WALK_SEGDIR[pl["seg"]].format(k=k)
+                    if pl["seg"] == "link_dir":          # the directory argument holds a symbolic link to a directory that lies outside every argument
+                        real = os.path.join(d, "outside", f"real{pl['root']}_{k}")
+                        os.makedirs(os.path.join(real, "src"), exist_ok=True)
+                        os.makedirs(root, exist_ok=True)
+                        if not os.path.islink(os.path.join(root, segdir)):
+                            os.symlink(real, os.path.join(root, segdir))
+                        fdir = os.path.join(real, "src")
+                    else:
+                        fdir = os.path.join(root, segdir) if pl["seg"] == "dir_named_rs" else os.path.join(root, segdir, "src")
+                        os.makedirs(fdir, exist_ok=True)
+                    fpath = os.path.join(fdir, WALK_FNAME[pl["fname"]])
+                    if pl["fname"] == "link_file":
+                        os.makedirs(os.path.join(d, "outside", "files"), exist_ok=True)
+                        open(os.path.join(d, "outside", "files", marker + ".rs"), "w").write(text)
+                        os.symlink(os.path.join(d, "outside", "files", marker + ".rs"), fpath)
+                    else:
+                        open(fpath, "w").write(text)
+                for r in (1, 2):
+                    root = os.path.join(d, f"r{r}")
+                    open(os.path.join(root, ".ignore"), "w").write("ign*/\n")
+                    open(os.path.join(root, ".gitignore"), "w").write("gi*/\n")
+                    if git:
+                        os.makedirs(os.path.join(root, ".git"), exist_ok=True)
+                out = os.path.join(d, "out")
+                os.makedirs(out)
+                dest = ["-o", os.path.join(out, "out.ts")] if mode == "single" else ["-d", out]
+                r = cli.run_cli(["-l", "typescript"] + (["-L"] if follow else []) + dest + [os.path.join(d, "r1"), os.path.join(d, "r2")], timeout=60)
+                if r["exit"] in ("panic", "timeout", "signal"):
+                    continue          # C07
+                if r["exit"] != "ok":
+                    chk.refused(f"walk/{mode}", f"typeshare failed on the walk tree (follow={follow}, git={git}, {mode}): {r['stderr'][-200:].strip()}", {"walk": True})
+                    continue
+                text = "".join(open(os.path.join(out, f)).read() for f in sorted(os.listdir(out)))
+                found = set(re.findall(r"\bW[12]x\d+x\d+\b", text))
+                for marker, c in sorted(markers.items()):
+                    pl = c["place"]
+                    events.append({"seg": pl["seg"], "fname": pl["fname"], "follow": follow, "git": git, "read": marker in found})
+                    meta.append((c, mode))
+                    if (marker in found) != c["predict"]:
+                        chk.model_drift(f"Walk!Reads predicts read={c['predict']} for place {pl} ({mode}), the binary read={marker in found}")
+    ok, matched, tres = common.trace_validate("Trace_Walk", events, timeout=300)
+    chk.add_tlc("Trace_Walk", tres)
+    if matched != len(events):
+        raise ToolError(f"Trace_Walk consumed {matched}/{len(events)}")
+    for b in tres.bad:
+        e = events[b - 1]
+        c, mode = meta[b - 1]
+        chk.mismatch(f"C03/typescript+cli/{mode}/walk/seg={e['seg']}/file={e['fname']}/follow={e['follow']}/{'not-read' if not e['read'] else 'read-but-must-not'}",
+                     f"walk: file {WALK_FNAME[e['fname']]} below {WALK_SEGDIR[e['seg']]} (directory argument {c['place']['root']}, follow-links={e['follow']}, git={e['git']}, {mode}): "
+                     f"read={e['read']}, demanded {c['demand']}", {"walk": True, "place": c["place"]}, c["demand"], e["read"])
+    chk.traces += len(events) - len(tres.bad)
+    for e, (c, mode) in zip(events, meta):
+        chk.judged(("walk", mode, str(c["place"])))
+    chk.extra["walk_events"] = len(events)
+
+
 def run(chk):
     thorough = chk.tier == "thorough"
     chk.rule = ("spec->impl: item kind x annotation spelling x nesting x skipped-member set x skip spelling (MC_C03) with an annotated neighbour and an "
@@ -332,10 +421,15 @@ def run(chk):
     for e, m in zip(events, meta):
         chk.judged((m[0], str(m[1]), str([(it["name"], it["kind"], it["annotated"]) for it in m[2]])))
     places(chk)
+    walk(chk)
 
 
 def replay(chk, rec):
     c = rec["case"]
+    if c.get("walk"):
+        walk(chk)
+        chk.mismatches = {k: v for k, v in chk.mismatches.items() if k == rec["signature"]}
+        return
     if "place" in c:
         places(chk)
         chk.mismatches = {k: v for k, v in chk.mismatches.items() if k == rec["signature"]}
